@@ -47,6 +47,13 @@ CHECKS.update({
          HANDLER_NOTE + "; decided at the Manager/MappingManager interface, the SQL below it is not part of this check", "4 C17"),
 })
 
+CHECKS.update({
+ "C14": ("two checks issued concurrently against one real engine and one symbolic store under every schedule within delay bound 1 of the deterministic scheduler return what they return alone; every load/store/map access of the interpreted program is checked against a vector-clock happens-before relation (data race = unordered conflicting accesses); the lazily initialised registry getters are run from two goroutines",
+         ENGINE_NOTE + "; the race analysis is the executor's own (models of go/channels/sync/atomics/context), not the Go race detector", "4 C14"),
+ "C19": ("the real OPL watcher and legacy namespace watcher structs are driven by every event sequence of bounded length (2 files x {valid v1, valid v2, syntax error, type error, remove}); after every event the namespaces visible through Namespaces() must be, per file, those of one valid version loaded so far, never nothing, and the last valid version at the end; documents go through the real schema.Parse",
+         "events are delivered by direct calls (no fsnotify, no timing); sequences enumerated by forking, the solver is idle here; legacy parser stubbed in symbolic runs", "4 C19"),
+})
+
 NOT_APPLICABLE = {}
 
 def main():
